@@ -18,10 +18,17 @@ EXTENDS Grants
 
 FaultKinds == {"generic", "not_found", "inactive", "serialization"}
 
+(* sets of scopes / audiences back to sequences (fixed order), for operation records built by the model *)
+RECURSIVE SelSeq(_, _, _)
+SelSeq(seq, set, i) == IF i > Len(seq) THEN <<>> ELSE (IF seq[i] \in set THEN <<seq[i]>> ELSE <<>>) \o SelSeq(seq, set, i + 1)
+SetToSeqFixed(set) == SelSeq(ScopeSeq, set, 1)
+SetToSeqFixedAud(set) == SelSeq(AudSeq, set, 1)
+JoinSelSeq(set) == SetToSeqFixed(set)
+
 (* global state: the Grants state, the open transaction's snapshot, the tx log *)
 InitG(st) == [st |-> st, snap |-> <<>>, open |-> FALSE, txlog |-> <<>>]
 
-Loc0 == [row |-> <<>>, at |-> 0, rt |-> 0, withRT |-> FALSE, idt |-> FALSE, pend |-> "", pendr |-> "", nopkce |-> FALSE, e1 |-> "", found |-> "", inj |-> FALSE]
+Loc0 == [row |-> <<>>, at |-> 0, rt |-> 0, withRT |-> FALSE, idt |-> FALSE, pend |-> "", pendr |-> "", nopkce |-> FALSE, e1 |-> "", found |-> "", inj |-> FALSE, rid |-> 0]
 NewProc(op, pc) == [op |-> op, pc |-> pc, out |-> Out0, l |-> Loc0]
 
 IsTx(G) == G.st.cfg.store = "tx"
@@ -58,15 +65,19 @@ RTRow(st, rid, client, req, scopes, aud, sub) ==
 (* ---- which storage method is the process about to call --------------------- *)
 MethodOf(pr) ==
   LET pc == pr.pc IN
-  CASE pc \in {"rd.client", "rf.client", "rv.client", "dp.client", "az.client", "ja.client"} -> "GetClient"
+  CASE pc \in {"rd.client", "rf.client", "rv.client", "dp.client", "az.client", "ja.client", "cc.client", "pw.client", "pp.client", "pp.client2"} -> "GetClient"
     [] pc \in {"rd.getcode1", "rd.getcode2"} -> "GetAuthorizeCodeSession"
     [] pc \in {"rd.replayAT", "rf.rrevat", "rv.revat", "dp.replayAT"} -> "RevokeAccessToken"
     [] pc \in {"rd.replayRT", "rf.rrevrt", "rv.revrt", "dp.replayRT"} -> "RevokeRefreshToken"
     [] pc = "rd.getpkce" -> "GetPKCERequestSession"
     [] pc \in {"rd.begin", "rf.begin", "rf.rbegin", "dp.begin"} -> "BeginTX"
     [] pc = "rd.inval" -> "InvalidateAuthorizeCodeSession"
-    [] pc \in {"rd.createAT", "rf.createAT", "dp.createAT", "az.createAT", "ja.createAT", "jb.createAT"} -> "CreateAccessTokenSession"
-    [] pc \in {"rd.createRT", "rf.createRT", "dp.createRT"} -> "CreateRefreshTokenSession"
+    [] pc \in {"rd.createAT", "rf.createAT", "dp.createAT", "az.createAT", "ja.createAT", "jb.createAT", "cc.createAT", "pw.createAT"} -> "CreateAccessTokenSession"
+    [] pc \in {"rd.createRT", "rf.createRT", "dp.createRT", "pw.createRT"} -> "CreateRefreshTokenSession"
+    [] pc = "pw.auth" -> "Authenticate"
+    [] pc = "pp.create" -> "CreatePARSession"
+    [] pc = "up.get" -> "GetPARSession"
+    [] pc = "up.del" -> "DeletePARSession"
     [] pc \in {"rd.commit", "rf.commit", "rf.rcommit", "dp.commit"} -> "Commit"
     [] pc \in {"rd.rollback", "rf.rollback", "dp.rollback"} -> "Rollback"
     [] pc \in {"rd.getoidc", "dp.getoidc"} -> "GetOpenIDConnectSession"
@@ -108,6 +119,13 @@ StartProc(G, op) ==
          IF st.cfg.par_enf THEN Done(G, NewProc(op, "done"), "invalid_request", "par_enforced").pr
          ELSE NewProc(op, "az.client")
     [] op.op = "probe" -> NewProc(op, IF op.kind = "at" THEN "pb.at" ELSE "pb.rt")
+    [] op.op = "ccreds" ->
+         IF op.auth = "none" THEN Done(G, NewProc(op, "done"), "invalid_request", "client_unauthenticated").pr ELSE NewProc(op, "cc.client")
+    [] op.op = "password" ->
+         IF op.auth = "none" THEN Done(G, NewProc(op, "done"), "invalid_request", "client_unauthenticated").pr ELSE NewProc(op, "pw.client")
+    [] op.op = "push" ->
+         IF op.auth = "none" THEN Done(G, NewProc(op, "done"), "invalid_client", "client_unauthenticated").pr ELSE NewProc(op, "pp.client")
+    [] op.op = "usepar" -> NewProc(op, "up.get")
     [] op.op = "jauth" -> NewProc(op, "ja.client")
     [] op.op = "jbearer" -> NewProc(op, "jb.getkey")
     [] OTHER -> NewProc(op, "done")
@@ -412,11 +430,11 @@ AuthorizeStep(G, pr, f) ==
          ELSE IF Hybrid(op.rtype) /\ op.redir # "sent" THEN Done(G, pr, "invalid_request", "oidc_redirect_required")
          ELSE IF Hybrid(op.rtype) /\ "authorization_code" \notin st.reg[op.client].grants THEN Done(G, pr, "invalid_grant", "grant_type_not_allowed")
          ELSE IF op.rtype = "token" /\ "implicit" \notin st.reg[op.client].grants THEN Done(G, pr, "invalid_grant", "grant_type_not_allowed")
-         ELSE Goto([G EXCEPT !.st.nrid = @ + 1], pr, IF op.rtype = "token" THEN "az.createAT" ELSE "az.createcode")
+         ELSE Goto([G EXCEPT !.st.nrid = @ + 1], [pr EXCEPT !.l.rid = st.nrid + 1], IF op.rtype = "token" THEN "az.createAT" ELSE "az.createcode")
     [] pc = "az.createcode" ->
          IF f # "none" THEN Done(G, pr, "server_error", "storage_failure")
          ELSE LET kk == Count(st.S.code) + 1
-                  row == [client |-> op.client, rid |-> st.nrid, req |-> req, scopes |-> grant, aud |-> aud,
+                  row == [client |-> op.client, rid |-> pr.l.rid, req |-> req, scopes |-> grant, aud |-> aud,
                           redir |-> op.redir = "sent", exp |-> st.now + st.cfg.l_code, active |-> TRUE, openid |-> openid, dl |-> FALSE]
               IN Goto(SetS(G, CreateAuthorizeCodeSession(st.S, kk, row)), [pr EXCEPT !.l.rt = kk],
                       IF openid THEN "az.createoidc" ELSE
@@ -433,7 +451,7 @@ AuthorizeStep(G, pr, f) ==
     [] pc = "az.createAT" ->
          IF f # "none" THEN Done(G, pr, "server_error", "storage_failure")
          ELSE LET i == Count(st.S.at) + 1 IN
-              Goto(SetS(G, CreateAccessTokenSession(st.S, i, ATRow(st, st.nrid, op.client, grant, aud, Subject, "authz"))),
+              Goto(SetS(G, CreateAccessTokenSession(st.S, i, ATRow(st, pr.l.rid, op.client, grant, aud, Subject, "authz"))),
                    [pr EXCEPT !.l.at = i],
                    IF PkceAuthzErr(st, [rtype |-> op.rtype, pkce |-> op.pkce, client |-> op.client]) # "ok" THEN "az.fail_pkce"
                    ELSE IF HasCode(op.rtype) /\ op.pkce # "none" THEN "az.createpkce" ELSE "az.finish")
@@ -484,6 +502,84 @@ ProbeStep(G, pr, f) ==
        ELSE Done(G, pr, "inactive", "introspect_inactive")
 
 (* ======================================================================== *)
+(* single-write grants and pushed authorization requests                    *)
+(* ======================================================================== *)
+RawErr(kind) ==     \* an error of the access-token write that the handler returns unwrapped
+  CASE kind = "not_found" -> "not_found" [] kind = "inactive" -> "token_inactive" [] OTHER -> "error"
+SimpleStep(G, pr, f) ==
+  LET st == G.st
+      op == pr.op
+      pc == pr.pc
+      reg == st.reg[op.client]
+      req == Range(op.scopes)
+      aud == Range(op.aud)
+      i == Count(st.S.at) + 1
+      j == Count(st.S.rt) + 1
+  IN
+  CASE pc = "cc.client" ->
+         LET r == ClientStep(G, pr, f, "cc.createAT") IN
+         IF r.pr.pc # "cc.createAT" THEN r
+         ELSE IF ~(req \subseteq reg.scopes) THEN Done(G, pr, "invalid_scope", "scope_not_allowed")
+         ELSE IF ~(aud \subseteq reg.aud) THEN Done(G, pr, "invalid_request", "aud_not_allowed")
+         ELSE IF Public(op.client) THEN Done(G, pr, "invalid_grant", "public_client_credentials")
+         ELSE IF "client_credentials" \notin reg.grants THEN Done(G, pr, "unauthorized_client", "grant_type_not_allowed")
+         ELSE Goto([G EXCEPT !.st.nrid = @ + 1], [pr EXCEPT !.l.rid = st.nrid + 1], "cc.createAT")
+    [] pc = "cc.createAT" ->
+         IF f # "none" THEN Done(G, pr, RawErr(f), "storage_failure")
+         ELSE [G |-> [SetS(G, CreateAccessTokenSession(st.S, i, [ATRow(st, pr.l.rid, op.client, req, aud, Subject, "token") EXCEPT !.dl = TRUE])) EXCEPT !.st.nep = @ + 1],
+               pr |-> [pr EXCEPT !.pc = "done", !.out = [Out0 EXCEPT !.at = i, !.expin = st.cfg.l_at]]]
+    [] pc = "pw.client" ->
+         LET r == ClientStep(G, pr, f, "pw.auth") IN
+         IF r.pr.pc # "pw.auth" THEN r
+         ELSE IF "password" \notin reg.grants THEN Done(G, pr, "unauthorized_client", "grant_type_not_allowed")
+         ELSE IF ~(req \subseteq reg.scopes) THEN Done(G, pr, "invalid_scope", "scope_not_allowed")
+         ELSE IF ~(aud \subseteq reg.aud) THEN Done(G, pr, "invalid_request", "aud_not_allowed")
+         ELSE r
+    [] pc = "pw.auth" ->
+         IF f = "not_found" \/ (f = "none" /\ op.user # "ok") THEN Done(G, pr, "invalid_grant", "bad_user_credentials")
+         ELSE IF f # "none" THEN Done(G, pr, "server_error", "storage_failure")
+         ELSE Goto([G EXCEPT !.st.nrid = @ + 1], [pr EXCEPT !.l.rid = st.nrid + 1], "pw.createAT")
+    [] pc = "pw.createAT" ->
+         IF f # "none" THEN Done(G, pr, RawErr(f), "storage_failure")
+         ELSE LET withRT == RScopes(st) = {} \/ req \cap RScopes(st) # {}
+                  G1 == SetS(G, CreateAccessTokenSession(st.S, i, ATRow(st, pr.l.rid, op.client, req, aud, "uuid", "token")))
+              IN IF withRT THEN Goto(G1, [pr EXCEPT !.l.at = i], "pw.createRT")
+                 ELSE [G |-> [SetS(G1, Deliver(G1.st.S, i, 0)) EXCEPT !.st.nep = @ + 1],
+                       pr |-> [pr EXCEPT !.pc = "done", !.out = [Out0 EXCEPT !.at = i, !.expin = st.cfg.l_at]]]
+    [] pc = "pw.createRT" ->
+         IF f # "none" THEN Done(G, pr, "server_error", "storage_failure")
+         ELSE LET G1 == SetS(G, CreateRefreshTokenSession(st.S, j, RTRow(st, pr.l.rid, op.client, req, req, aud, "uuid"))) IN
+              [G |-> [SetS(G1, Deliver(G1.st.S, pr.l.at, j)) EXCEPT !.st.nep = @ + 1],
+               pr |-> [pr EXCEPT !.pc = "done", !.out = [Out0 EXCEPT !.at = pr.l.at, !.rt = j, !.expin = st.cfg.l_at]]]
+    [] pc = "pp.client" ->
+         IF f # "none" \/ AuthErr(op) # "ok" THEN Done(G, pr, "invalid_client", IF f # "none" THEN "client_lookup_failed" ELSE AuthReason(op))
+         ELSE IF op.field = "request_uri" THEN Done(G, pr, "invalid_request", "par_contains_request_uri")
+         ELSE Goto(G, pr, "pp.client2")
+    [] pc = "pp.client2" ->      \* the request is then validated like an authorization request, which looks the client up again
+         IF f # "none" THEN Done(G, pr, "invalid_client", "client_lookup_failed")
+         ELSE LET e == AuthzRequestErr(st, op.client, req, aud, op.redir = "sent") IN
+              IF e[1] # "ok" THEN Done(G, pr, e[1], e[2]) ELSE Goto(G, pr, "pp.create")
+    [] pc = "pp.create" ->
+         IF f # "none" THEN Done(G, pr, "server_error", "storage_failure")
+         ELSE LET u == Count(st.S.par) + 1 IN
+              [G |-> SetS(G, CreatePARSession(st.S, u, [client |-> op.client, exp |-> st.now + st.cfg.l_par, present |-> TRUE, rtype |-> op.rtype,
+                                                         req |-> req, aud |-> aud, redirSent |-> op.redir = "sent", dl |-> TRUE])),
+               pr |-> [pr EXCEPT !.pc = "done", !.out = [Out0 EXCEPT !.par = u, !.expin = st.cfg.l_par]]]
+    [] pc = "up.get" ->
+         IF f # "none" \/ GetPARSession(st.S, op.par) # "ok" THEN Done(G, pr, "invalid_request_uri", "par_unknown_or_used")
+         ELSE IF st.now > st.S.par[op.par].exp THEN Done(G, pr, "invalid_request_uri", "par_expired")
+         ELSE Goto(G, [pr EXCEPT !.l.row = st.S.par[op.par]], "up.del")
+    [] OTHER -> \* "up.del": afterwards the request continues as the pushed authorization request
+         IF f # "none" THEN Done(G, pr, "server_error", "storage_failure")
+         ELSE LET row == pr.l.row
+                  G1 == SetS(G, DeletePARSession(st.S, op.par))
+                  aop == [op |-> "authorize", client |-> row.client, rtype |-> row.rtype, scopes |-> SetToSeqFixed(row.req), grant |-> SetToSeqFixed(row.req),
+                          aud |-> SetToSeqFixedAud(row.aud), redir |-> IF row.redirSent THEN "sent" ELSE "omit", pkce |-> "none"]
+              IN IF row.client # op.client THEN Done(G1, pr, "invalid_request", "par_wrong_client")
+                 ELSE IF Hybrid(row.rtype) /\ ~row.redirSent THEN Done([G1 EXCEPT !.st.nrid = @ + 1, !.st.nep = @ + 1], pr, "invalid_request", "oidc_redirect_required")
+                 ELSE Goto([G1 EXCEPT !.st.nrid = @ + 1], [pr EXCEPT !.op = aop, !.l.rid = st.nrid + 1], IF row.rtype = "token" THEN "az.createAT" ELSE "az.createcode")
+
+(* ======================================================================== *)
 (* JWT assertions: each jti is accepted at most once (C15)                  *)
 (*  jauth  : private_key_jwt client authentication + client_credentials     *)
 (*  jbearer: JWT-bearer authorization grant (RFC 7523)                      *)
@@ -525,6 +621,7 @@ PStep(G, pr0, f) ==
            [] pr.op.op = "devpoll" -> DevPollStep(G, pr, f)
            [] pr.op.op = "authorize" -> AuthorizeStep(G, pr, f)
            [] pr.op.op \in {"jauth", "jbearer"} -> AssertionStep(G, pr, f)
+           [] pr.op.op \in {"ccreds", "password", "push", "usepar"} -> SimpleStep(G, pr, f)
            [] OTHER -> ProbeStep(G, pr, f))
 
 (* Running one request to completion without faults.  The refinement claim
